@@ -177,6 +177,9 @@ func (ch *channel) addInitDataAndUpdateTimescale(stream stream, init *mp4.InitSe
 	r.lang = lang
 
 	stsd := trak.Mdia.Minf.Stbl.Stsd
+	if len(stsd.Children) == 0 {
+		return fmt.Errorf("no sample entry in stsd box")
+	}
 	sampleEntry := stsd.Children[0].Type()
 
 	ch.addTrData(r)
@@ -432,6 +435,9 @@ func extractVideoData(stsd *mp4.StsdBox, rep *m.RepresentationType) error {
 	var codecs string
 	switch sampleEntry {
 	case "avc1":
+		if stsd.AvcX == nil || stsd.AvcX.AvcC == nil || len(stsd.AvcX.AvcC.DecConfRec.SPSnalus) == 0 {
+			return fmt.Errorf("avc1 sample entry without SPS in avcC")
+		}
 		decConfRec := stsd.AvcX.AvcC.DecConfRec
 		spsRaw := decConfRec.SPSnalus[0]
 		sps, err := avc.ParseSPSNALUnit(spsRaw, true)
@@ -440,8 +446,15 @@ func extractVideoData(stsd *mp4.StsdBox, rep *m.RepresentationType) error {
 		}
 		codecs = avc.CodecString(sampleEntry, sps)
 	case "hvc1":
+		if stsd.HvcX == nil || stsd.HvcX.HvcC == nil {
+			return fmt.Errorf("hvc1 sample entry without hvcC")
+		}
 		decConfRec := stsd.HvcX.HvcC.DecConfRec
-		spsRaw := decConfRec.GetNalusForType(hevc.NALU_SPS)[0]
+		spsNalus := decConfRec.GetNalusForType(hevc.NALU_SPS)
+		if len(spsNalus) == 0 {
+			return fmt.Errorf("hvc1 sample entry without SPS in hvcC")
+		}
+		spsRaw := spsNalus[0]
 		sps, err := hevc.ParseSPSNALUnit(spsRaw)
 		if err != nil {
 			return fmt.Errorf("failed to parse hvc1 SPS: %w", err)
